@@ -131,6 +131,16 @@ check("C10", "model_checking",
       "Trusted: the JSON renderer and the projection of decoded values; TLC. Byte-level malformed JSON is only sampled.",
       "TLA+ document-space enumeration (TLC) + replay through the real decoder + TLC trace validation of projected values and battery outcomes", "DESIGN.md section 4 C10")
 
+check("C09", "model_checking",
+      "Host contract c09 in spec/Trace_Host.tla: after ANY top-level statement prefix of a generated program (crash point) the variables are "
+      "serialised, restored into a fresh VM carrying the same generator state, and the remaining statements plus follow-up programs (calls of "
+      "restored functions through the lazy-compile path, computed values, variables) run on both VMs: restore must accept its own snapshot, "
+      "the restored variables must be structurally equal, and every later outcome (value, process text, variables, rolls, callbacks) must "
+      "be equal.  Values JSON cannot represent (reference cycles through arrays, dicts and computed attributes; non-finite floats) must "
+      "report an error and never crash; a fatal crash of the process is attributed.  TLC validates every recorded experiment.",
+      "Trusted: value projection, TLC. Sharing between containers is lost by a tree format: recorded as a known finding and tagged separately.",
+      "TLC trace validation of snapshot/restore experiments at every crash point of TLA+-generated programs", "DESIGN.md section 4 C09")
+
 NOT_YET = "check under construction in this build phase (planned in DESIGN.md section 4); not yet claimed"
 
 m = {
